@@ -105,6 +105,11 @@ def eval_run(mod, plan, r):
     if r.died:
         d = classify_death(r)
         d["died"] = True
+        try:
+            op = plan["tasks"][d.get("cur_tid") or 0]["ops"][d.get("cur_op")]
+            d["call"] = op.get("f") or ("@" + op.get("act", "?"))
+        except Exception:
+            d["call"] = None
         viols.append(d)
     try:
         vs = mod.check(plan, r)
